@@ -79,15 +79,15 @@ Section SetProofs.
      document came from STDIN) and it is the library's post-state of the loaded (or, for an
      empty file, freshly built) document; any other ending delivers nothing *)
   Lemma set_file : forall a tty valfile_ok load gather,
-    (r_status (set_main built saveto change flow a tty valfile_ok load gather) = Exit 0 /\
+    (r_status (cli_set_main built saveto change flow a tty valfile_ok load gather) = Exit 0 /\
      exists d0 j,
        (get_yaml_data load = L1Ok (Some d0) \/ (get_yaml_data load = L1Ok None /\ built = LOk d0)) /\
-       delivered (set_main built saveto change flow a tty valfile_ok load gather) =
+       delivered (cli_set_main built saveto change flow a tty valfile_ok load gather) =
          [(j, [set_post a saveto change d0])]) \/
-    (r_status (set_main built saveto change flow a tty valfile_ok load gather) <> Exit 0 /\
-     delivered (set_main built saveto change flow a tty valfile_ok load gather) = []).
+    (r_status (cli_set_main built saveto change flow a tty valfile_ok load gather) <> Exit 0 /\
+     delivered (cli_set_main built saveto change flow a tty valfile_ok load gather) = []).
   Proof.
-    intros a tty valfile_ok load gather. unfold set_main.
+    intros a tty valfile_ok load gather. unfold cli_set_main.
     destruct (negb (Nat.eqb (set_validate_errors a tty) 0)).
     { right. unfold delivered; simpl. rewrite dumped_hints. split; [discriminate|reflexivity]. }
     destruct (negb (value_given a) && negb (sa_stdin a) && sa_valfile a && negb valfile_ok).
